@@ -471,3 +471,56 @@ Proof.
       * apply Nat.eqb_eq in H1. rewrite H1. eexists; reflexivity.
       * apply Nat.eqb_eq in H2. rewrite H2. eexists; reflexivity.
 Qed.
+
+(* ---------- concurrent invocations are isolated ---------- *)
+Section IsoProofs.
+  Variable V : Type.
+  Notation istate := (istate V).
+
+  Fixpoint count_occ_nat (t : nat) (l : list nat) : nat :=
+    match l with [] => 0 | x :: r => (if x =? t then 1 else 0) + count_occ_nat t r end.
+
+  Lemma istep_base t s s' : istep V t s = Some s' -> is_base V s' = is_base V s.
+  Proof.
+    unfold istep. destruct (nth_opt t (is_todo V s)) as [[|op rest]|]; try discriminate.
+    destruct (nth_opt t (is_priv V s)); [|discriminate]. intros H; inversion H; reflexivity.
+  Qed.
+
+  (* one step of thread t leaves every other invocation's private collection and pending
+     operations untouched, and never writes the base *)
+  Lemma istep_other t s s' u : istep V t s = Some s' -> u <> t ->
+    nth_opt u (is_priv V s') = nth_opt u (is_priv V s) /\ nth_opt u (is_todo V s') = nth_opt u (is_todo V s).
+  Proof.
+    unfold istep. destruct (nth_opt t (is_todo V s)) as [[|op rest]|]; try discriminate.
+    destruct (nth_opt t (is_priv V s)); [|discriminate]. intros H Hne; inversion H; subst; simpl.
+    split; apply nth_opt_upd_other; intro; subst; contradiction.
+  Qed.
+
+  (* For every schedule: the private collection of invocation u after the run is what u computes
+     alone in as many steps as the schedule gave it (Bernstein: disjoint write sets, shared reads
+     of a constant base). *)
+  Theorem invocations_isolated : forall sched s u ops a,
+    nth_opt u (is_todo V s) = Some ops -> nth_opt u (is_priv V s) = Some a ->
+    exists k, k <= count_occ_nat u sched /\
+      nth_opt u (is_priv V (run istate (istep V) sched s)) = Some (solo V (is_base V s) ops k a) /\
+      is_base V (run istate (istep V) sched s) = is_base V s.
+  Proof.
+    induction sched as [|t r IH]; intros s u ops a Hops Ha; simpl.
+    - exists 0. split; [lia|]. split; [destruct ops; exact Ha | reflexivity].
+    - destruct (istep V t s) as [s'|] eqn:Es.
+      + destruct (Nat.eq_dec t u) as [E|E].
+        * subst t. unfold istep in Es. rewrite Hops, Ha in Es.
+          destruct ops as [|op rest]; [discriminate|]. inversion Es; subst s'; clear Es.
+          destruct (IH (mkIs V (is_base V s) (upd_nth u (fun _ => op (is_base V s) a) (is_priv V s)) (upd_nth u (fun _ => rest) (is_todo V s)))
+                       u rest (op (is_base V s) a)) as (k & Hk & Hp & Hb).
+          { simpl. exact (nth_opt_upd_same (fun _ => rest) (is_todo V s) u (op :: rest) Hops). }
+          { simpl. exact (nth_opt_upd_same (fun _ => op (is_base V s) a) (is_priv V s) u a Ha). }
+          exists (S k). rewrite Nat.eqb_refl. split; [lia|]. split; [exact Hp | exact Hb].
+        * destruct (istep_other t s s' u Es) as [Hp Ht]; [intro; subst; contradiction|].
+          destruct (IH s' u ops a) as (k & Hk & Hpp & Hb); [rewrite Ht; exact Hops | rewrite Hp; exact Ha|].
+          exists k. assert ((t =? u) = false) by (apply Nat.eqb_neq; exact E). rewrite H.
+          split; [lia|]. rewrite (istep_base t s s' Es) in Hpp, Hb. split; [exact Hpp | exact Hb].
+      + destruct (IH s u ops a Hops Ha) as (k & Hk & Hp & Hb). exists k.
+        split; [destruct (t =? u); lia|]. split; [exact Hp | exact Hb].
+  Qed.
+End IsoProofs.
